@@ -146,6 +146,11 @@ func (x *Ex) genFuncsMore(body *LeanFile) {
 		{"internal/webdoc", "TextDocument", "ApplyToModel"},
 		{"internal/webdoc", "Document", "CreateTextDocument"},
 	})
+	// Apply itself and the extractor's constructor: root validation, document element, container
+	x.bodyGroup(body, "applyBodies", []string{"C01", "C13"}, [][3]string{
+		{"", "", "Apply"},
+		{"internal/extractor", "", "NewContentExtractor"},
+	})
 	// the entry points around Apply: they only fetch / open / parse and delegate
 	x.bodyGroup(body, "entryPointBodies", []string{"C10", "C11", "C13"}, [][3]string{
 		{"", "", "ApplyForURL"},
